@@ -456,32 +456,9 @@ def check_annotations(ctx):
 def check_plot_args(ctx):
     prog = ctx.prog
     m = prog.module("verif.output")
-    # ---- ROC
-    c = prog.cls("verif.output.Roc")
-    site = c.qual + "._plot_core"
-    f = c.methods["_plot_core"]
-    gi = [k for k in calls_in(f) if call_name(m, k) == "verif.util.get_intervals"]
-    lv = [k for k in gi if len(k.args) == 2 and norm(k.args[1]) == "levels"]
-    ok = len(lv) == 1 and const(lv[0].args[0]) == "above="
-    ctx.ob("C16.4", site, ok, "ROC: forecast 'yes' is p >= level (get_intervals('above=', levels))", loc=prog.loc(m, lv[0] if lv else f),
-           msg="ROC probability levels use bin type %s: a probability exactly equal to a level is counted as 'no'" % (norm(lv[0].args[0]) if lv else "?"))
-    src = norm(f)
-    ok = "y[i] = a / 1.0 / (a + c)" in src and "x[i] = b / 1.0 / (b + d)" in src and "x = np.concatenate([[1], x, [0]])" in src and "y = np.concatenate([[1], y, [0]])" in src
-    ctx.ob("C16.4", site, ok, "ROC: x = false alarm rate b/(b+d), y = hit rate a/(a+c), end points (1,1) and (0,0)", loc=prog.loc(m, f), msg="ROC coordinates changed")
-    ok = "apply_threshold_prob(fcst, self.bin_type, threshold)" in src and "o_interval = verif.util.get_intervals(self.bin_type, self.thresholds)[0]" in src
-    ctx.ob("C16.4", site, ok, "ROC: probabilities flipped to the event of the user's bin type; observed event from the same bin type", loc=prog.loc(m, f), msg="ROC event definition changed")
-    # ---- DRoc / Performance via Fa / Hit / Far with (interval, f_interval)
-    c = prog.cls("verif.output.DRoc")
-    src = norm(c.methods["_plot_core"])
-    ok = "x[i] = verif.metric.Fa().compute_from_obs_fcst(obs, fcst, interval, f_interval)" in src and "y[i] = verif.metric.Hit().compute_from_obs_fcst(obs, fcst, interval, f_interval)" in src
-    ctx.ob("C16.4", c.qual + "._plot_core", ok, "DROC: x = false alarm rate, y = hit rate of (obs interval, forecast interval)", msg="DROC coordinates changed")
-    c = prog.cls("verif.output.Performance")
-    src = norm(c.methods["_plot_core"])
-    ok = "sr[i] = 1 - fa" in src and "pod[i] = hit" in src and "fa = Far.compute_from_obs_fcst(obs, fcst, interval)" in src and "hit = Hit.compute_from_obs_fcst(obs, fcst, interval)" in src \
-        and "mpl.plot(sr, pod," in src
-    ctx.ob("C16.4", c.qual + "._plot_core", ok, "performance diagram: x = 1 - FAR, y = POD", msg="performance diagram coordinates changed")
+    # (ROC, DROC, performance and error-decomposition diagrams: by value, rule C16.7 in c16v.py)
     # ---- Taylor, Error, QQ through symbolic folding of the drawing call
-    for cname, check in (("Taylor", _taylor), ("Error", _error), ("QQ", _qq)):
+    for cname, check in (("Taylor", _taylor), ("QQ", _qq)):
         c = prog.cls("verif.output." + cname)
         try:
             calls, ev = plotargs.draw_calls(prog, c, merge=True)
@@ -489,7 +466,7 @@ def check_plot_args(ctx):
             ctx.undecided_item("C16.4", c.qual, str(e))
             continue
         check(ctx, prog, m, c, calls)
-    ctx.floor("C16.4", 9)
+    ctx.floor("C16.4", 3)
 
 
 def _series(calls):
@@ -670,17 +647,20 @@ def run(ctx):
     ctx.rule("C16.2", "binning loops over consecutive edges are half-open; probability bins include the top edge")
     ctx.rule("C16.3", "annotation keys carry the attribute they name")
     ctx.rule("C16.5", "co-selection: per-point arguments of a scatter are subset by the same np.where selections")
-    ctx.rule("C16.4", "plot-argument table: roc, droc, performance, taylor, error, qq")
+    ctx.rule("C16.4", "plot-argument table: taylor, qq (roc, droc, performance, error, murphy: C16.7)")
     check_series_index(ctx)
     check_obsfcst_layout(ctx)
     check_bins(ctx)
     check_annotations(ctx)
     check_coselection(ctx)
     check_plot_args(ctx)
+    ctx.rule("C16.7", "series of the murphy, roc, error-decomposition, performance and droc diagrams by value: the element drawn at the generic index equals the definition as a rational function; provenance of the observed event, the probability, obs/fcst and the series' input")
+    from . import c16v
+    c16v.check_diagram_values(ctx)
     ctx.rule("C16.6", "standard line plots: column f = metric of input f over the -r intervals; undefined scores are not replaced by numbers")
     check_standard_xy(ctx)
     ctx.note("UNCOVERED for C16.4: fss, auto*, timeseries, meteo, against, hist/sort (C07.8), maps, rank, impact, reliability/discrimination series values, "
-             "economic value, murphy, marginal, freq (C07.8), spread-skill, change, cond, pithist, bsdecomp, igncontrib")
+             "economic value, marginal, freq (C07.8), spread-skill, change, cond, pithist, bsdecomp, igncontrib")
 
 
 CLAIM = {
